@@ -70,10 +70,23 @@ func chunksText(chunks [][]byte) []string {
 }
 
 type c47ctx struct {
-	r    *vk.Run
-	col  *collector
-	mu   sync.Mutex
-	seen map[string]struct{}
+	r       *vk.Run
+	col     *collector
+	mu      sync.Mutex
+	seen    map[string]struct{}
+	sampled map[string]bool
+}
+
+// sample keeps the first non-trivial case of each helper for the evidence file.
+func (c *c47ctx) sample(helper string, v func() map[string]any) {
+	c.mu.Lock()
+	defer c.mu.Unlock()
+	if !c.sampled[helper] {
+		c.sampled[helper] = true
+		m := v()
+		m["helper"] = helper
+		c.r.Sample(m)
+	}
 }
 
 func (c *c47ctx) distinct(s string) {
@@ -160,6 +173,9 @@ func (c *c47ctx) cutoff(idx int, rng *rand.Rand) {
 	if len(logical) > int(limit) {
 		c.distinct(fmt.Sprintf("cutoff|beyond|faults=%v", faults > 0))
 		c.r.Count("cutoff_cases_beyond_limit", 1)
+		if faults > 0 {
+			c.sample("cutoff", wit)
+		}
 	}
 }
 
@@ -284,6 +300,9 @@ func (c *c47ctx) lines(idx int, rng *rand.Rand) {
 			}
 		}
 		c.distinct(fmt.Sprintf("lines|limit=%v|overflow=%v|crlf=%v|n=%d", effective > 0 && effective < 1000, overflows > 0, crlf, min(len(want), 6)))
+		if crlf && overflows > 0 && len(want) > 2 {
+			c.sample("line-processor", wit)
+		}
 	}
 }
 
@@ -602,7 +621,7 @@ func (c *c47ctx) concurrent(round int) {
 
 func c47() {
 	r := vk.Start("C47", "exploration")
-	c := &c47ctx{r: r, col: newCollector(), seen: map[string]struct{}{}}
+	c := &c47ctx{r: r, col: newCollector(), seen: map[string]struct{}{}, sampled: map[string]bool{}}
 	n := r.Pick(12000, 400000)
 	helpers := []struct {
 		name string
@@ -631,8 +650,6 @@ func c47() {
 	for k := range c.seen {
 		r.Distinct(k)
 	}
-	r.Sample(map[string]any{"helper": "cutoff", "example": "cutoff 3, writes \"ab\",\"cd\",\"ef\": downstream must hold \"abc\"; the writes must return 2, 2, 2"})
-	r.Sample(map[string]any{"helper": "line-processor", "example": "writes \"a\\r\", \"\\nb\\r\\r\\n\", \"c\": callbacks must be \"a\", \"b\\r\""})
 	r.Assume("the scripted downstream obeys io.Writer: it returns n < len only together with an error; callers of the cutoff writer continue with the unwritten rest after a short count")
 	r.Assume("concurrent variants decide on logical order only (atomic flags set after Shut / close returned); data races are reported separately by the race detector")
 	r.Finish("seeded random write sequences against each helper of pkg/stream with a scripted downstream (accept / short write with error / fail): cutoff writer (downstream holds exactly the first N bytes reported written, nothing reaches it afterwards, later bytes reported written), hashed writer (digest = hash of accepted bytes), line processor (callbacks = input split at \\n with one \\r trimmed for any fragmentation; overflow exactly when buffered+new > limit, default 64 KiB, negative = unlimited), preemptable writer (<= interval writes reach downstream after cancellation, none after ErrWritePreempted), valve (nothing after Shut, success reported, nil writer = shut), multi-closer (each once, in order, first error); concurrent rounds for concurrent writer, valve vs Shut, preemptable vs cancel under the race detector; distinct = per-helper classes of non-trivial cases (cutoff exceeded, short writes seen, overflow hit, cancellation phase, shut position, error count)", 40)
